@@ -265,6 +265,17 @@ impl Basic {
         let fault_ms = if opts.fault_phase_max_ms == 0 || w.ch.chance("basic.fault_free", 1, 6) { 0 } else { w.ch.range("basic.fault_ms", 1, opts.fault_phase_max_ms) };
         let fault_end = if fault_ms > 0 { opts.fault_start + fault_ms * MS } else { 0 };
         w.net.base_delay = *w.ch.pick("basic.delay", &[5 * MS, MS, 20 * MS, 100 * MS, 400 * MS, 50_000]);
+        if opts.op_kinds.contains(&7) {
+            // Path validation gives up after three probe timeouts computed from the configured
+            // initial RTT (the new path has no samples, and the old one may have none either). A
+            // peer configured with an initial RTT far below the real one can therefore never
+            // validate a path — and, every packet on an unvalidated path carrying a challenge
+            // and every challenge drawing a padded response, the two ends then feed each other
+            // packets for ever. That is what `initial_rtt` is for (RFC 9000 §8.2.4 recommends
+            // 333 ms): worlds with migration keep the round trip within the configured value.
+            let irtt = sk.initial_rtt_ms.min(ck.initial_rtt_ms) * MS;
+            w.net.base_delay = w.net.base_delay.min(irtt / 2);
+        }
         if fault_ms > 0 {
             if opts.fault_start == 0 {
                 w.net.faults = true;
